@@ -256,7 +256,40 @@ func (p *Prog) FuncName(fn *ssa.Function) string {
 }
 
 // Fn returns the function with the given short name, or nil.
-func (p *Prog) Fn(name string) *ssa.Function { return p.ByName[name] }
+func (p *Prog) Fn(name string) *ssa.Function {
+	if fn := p.ByName[name]; fn != nil {
+		return fn
+	}
+	// a method turned into a function taking its receiver as the first parameter (or the reverse): same package,
+	// same name, exactly one candidate whose first parameter / receiver has the named type
+	if i := strings.Index(name, ".("); i > 0 {
+		// "pkg.(*T).name" -> "pkg.name" with first parameter of type *T / T
+		j := strings.Index(name[i:], ").")
+		if j < 0 {
+			return nil
+		}
+		pkg, tn, mn := name[:i], strings.Trim(name[i+2:i+j], "*"), name[i+j+2:]
+		if fn := p.ByName[pkg+"."+mn]; fn != nil && len(fn.Params) > 0 && fn.Signature.Recv() == nil && typeName(fn.Params[0].Type()) == tn {
+			return fn
+		}
+		return nil
+	}
+	// "pkg.name" -> the only method of that name in the package
+	if i := strings.LastIndex(name, "."); i > 0 {
+		var hit *ssa.Function
+		k := 0
+		for n, fn := range p.ByName {
+			if strings.HasPrefix(n, name[:i]+".(") && strings.HasSuffix(n, ")."+name[i+1:]) {
+				hit = fn
+				k++
+			}
+		}
+		if k == 1 {
+			return hit
+		}
+	}
+	return nil
+}
 
 // Pos renders a position relative to the repo root.
 func (p *Prog) Pos(pos token.Pos) string {
